@@ -170,7 +170,12 @@ func (ip *Inode) Resize(atxn *alloctxn.AllocTxn, sz uint64) bool {
 	if sz < ip.Size && sz%disk.BlockSize != 0 {
 		ip.zeroTail(atxn, sz)
 	}
-	oldsz := util.RoundUp(ip.Size, disk.BlockSize)
+	var oldsz = util.RoundUp(ip.Size, disk.BlockSize)
+	if ip.ShrinkSize > oldsz {
+		// an earlier shrink is still in progress: the blocks below
+		// ShrinkSize are still held and must be freed as well
+		oldsz = ip.ShrinkSize
+	}
 	util.DPrintf(5, "Resize %v to sz %d\n", oldsz, newSz)
 	ip.Size = newSz
 	newSz = util.RoundUp(sz, disk.BlockSize)
